@@ -11,7 +11,7 @@ def lowest_free(sap, lo, hi):
     return None
 
 
-from pyvc_rt import same_entries, call_arg, call_ret, ideal, entries_none_from, was_called   # noqa
+from pyvc_rt import same_entries, call_arg, call_ret, ideal, entries_none_from, was_called, urandom_draws   # noqa
 
 
 def unchanged_except(new, old, addr):
